@@ -47,7 +47,8 @@ CHECKS = {
     "C05": _rt("Same runs as C04: every packet handed to the mock storage and every region mapped by the monitoring client is walked: 8-byte "
                "aligned start, each header's size field == header + image bytes rounded up to 8, stepping lands exactly on the next header "
                "and on the packet end, the shape equals what the camera reported for that frame, and storage packets lie inside the stream's ring. "
-               "Generator biased to u8/i8 and odd sizes so all residues mod 8 occur.",
+               "Generator biased to u8/i8 and odd sizes so all residues mod 8 occur; a regime of two to four frames of 16.0-16.04 MiB (sizes above 2^24 bytes, all low-bit patterns) "
+               "runs through rings of at most three frames.",
                "property-based testing with a packet-walker invariant on every storage append and monitor map",
                "DESIGN.md section 3, harness rt, C05"),
     "C06": _rt("The client fiber maps/unmaps the monitor with generated polling styles (everything, all but the last frame, one frame at a time, "
@@ -86,7 +87,8 @@ CHECKS = {
     "C10": _rt("Averaging streams (k = 2..16, integer types, frame counts that are and are not multiples of k, sink rings of 1.1-8 averaged "
                "frames so the accumulator lands on reused memory) are checked against a double-precision mean of the k camera frames of each "
                "window (tolerance |mean|*4e-7 + 1e-4), window frame ids, f32 shape, count and order; at most one trailing frame whose pixels "
-               "are not judged; follow-up acquisitions must not receive leftovers.",
+               "are not judged; follow-up acquisitions must not receive leftovers. A failure that only shows after an earlier case of the same process "
+               "(state kept by the code under test between acquisitions or runtimes, e.g. a cached scale) is replayed and reported as a sequence of cases (DESIGN.md 2.3).",
                "property-based testing with an independent mean oracle over generated shapes, window sizes and schedules",
                "DESIGN.md section 3, harness rt, C10"),
     "C01": {
@@ -285,7 +287,10 @@ def main():
         ],
         "checks": checks,
         "notes": "Orchestrator: vcheck.py (build from /repo working tree -> replay tier -> 16 rapidcheck workers -> thorough extras -> triage -> evidence). "
-                 "VERIF_SEED seeds every engine. Known findings: known_findings.txt. Exit 2 + BUILD-FAILED when the tree does not compile.",
+                 "VERIF_SEED seeds every engine. Known findings: known_findings.txt. Exit 2 + BUILD-FAILED when the tree does not compile. "
+                 "A replay file is a tape (8-byte tokens) or, for a failure that needs earlier cases of the same process, a VHSEQ1 sequence of tapes; "
+                 "`python3 vcheck.py replay <Cxx> <file>` renders and re-runs either. Watchdogs (workers, enumerated batches) turn a case that stops making progress "
+                 "into a hang verdict only after three fresh replays also ran 360 s without ending.",
         "not_applicable": [{"property_id": p, "reason": NOT_YET} for p in ALL if p not in CHECKS or p not in PROP2HARNESS],
     }
     json.dump(m, open(os.path.join(VERIF, "MANIFEST.json"), "w"), indent=1)
